@@ -354,7 +354,7 @@ def confirm(src):
         f.write(src)
         path = f.name
     try:
-        env = dict(os.environ, PYTHONPATH='/repo')
+        env = dict(os.environ, PYTHONPATH=os.environ.get('PYVC_REPO', '/repo'))
         r = subprocess.run([sys.executable, path], env=env, capture_output=True, text=True, timeout=120)
         return r.returncode == 1 and 'REPRODUCED:' in r.stdout
     except Exception:
